@@ -452,6 +452,9 @@ def _dp_knapsack(vals, wts, cap, maximise):
     return best[cap]
 
 
+MEDIUM_CFGS = [{}, {"heuristics": False}, {"negated": True, "heuristics": False}, {"negated": True}, {"lns_iterations": 10, "seed": 0}, {"lns_iterations": 10, "seed": 1, "negated": True}]
+
+
 def _medium_chunk(params, lo, hi):
     from solvor.milp import solve_milp
     from solvor.types import Status
@@ -459,19 +462,24 @@ def _medium_chunk(params, lo, hi):
     cases = medium_knapsacks()
     r = new_result()
     for idx in range(lo, hi):
-        name, vals, wts, cap, maximise = cases[idx // 2]
-        heur = idx % 2 == 0
+        name, vals, wts, cap, maximise = cases[idx // len(MEDIUM_CFGS)]
+        cfg = idx % len(MEDIUM_CFGS)
         n = len(vals)
         A = [[1.0 if a == j else 0.0 for a in range(n)] for j in range(n)] + [[float(w) if maximise else -float(w) for w in wts]]
         b = [1.0] * n + [float(cap) if maximise else -float(cap)]
         want = _dp_knapsack(vals, wts, cap, maximise)
-        kw = {} if heur else {"heuristics": False}
-        wit = {"medium": name, "config": kw}
-        how = f"solve_milp({name}: {n} binaries, {'max value, weight <= ' if maximise else 'min cost, weight >= '}{cap}, {kw})"
+        kw = dict(MEDIUM_CFGS[cfg])
+        negated = kw.pop("negated", False)  # the same problem written with the objective negated and the sense flipped
+        wit = {"medium": name, "config": MEDIUM_CFGS[cfg]}
+        how = f"solve_milp({name}: {n} binaries, {'max value, weight <= ' if maximise else 'min cost, weight >= '}{cap}, {MEDIUM_CFGS[cfg]})"
         r["n"] += 1
         r["nontrivial"] += 1
         try:
-            res = gcall(lambda: solve_milp([float(v) for v in vals], A, b, list(range(n)), minimize=not maximise, **kw), 120.0, 1_500_000_000)
+            if negated:
+                res0 = gcall(lambda: solve_milp([-float(v) for v in vals], A, b, list(range(n)), minimize=maximise, **kw), 120.0, 1_500_000_000)
+                res = res0 if res0.solution is None else type("R", (), {"status": res0.status, "solution": res0.solution, "objective": -res0.objective})()
+            else:
+                res = gcall(lambda: solve_milp([float(v) for v in vals], A, b, list(range(n)), minimize=not maximise, **kw), 120.0, 1_500_000_000)
         except Exception as ex:  # noqa: BLE001
             r["outcomes"]["medium:raised"] += 1
             r["violations"].append(viol("solve_milp", "raised", wit, f"{how}: {type(ex).__name__}: {str(ex)[:120]}"))
@@ -672,7 +680,7 @@ def jobs(tier, seed):
     else:
         kn = ("knap", (2, 3, 4), (7, 9, 11), (2, 3, 4))
         js.append(Job("int4_knapsack_row_234", 81 * 3 * 81 * 2, _int4_chunk, kn, describe="4 integers in 0..2, one knapsack row with weights over {2,3,4}, K in {7,9,11}, values over {2,3,4}, maximise, heuristics on/off (incumbents found while dominated and non-dominated nodes wait in the queue)"))
-    js.append(Job("medium_knapsacks_by_dp", len(medium_knapsacks()) * 2, _medium_chunk, None, chunk=1, describe="0/1 knapsacks and covering problems with 10-24 binaries (data from fixed formulas, capacity a third / half of the total weight), heuristics on/off; optimum by plain integer DP"))
+    js.append(Job("medium_knapsacks_by_dp", len(medium_knapsacks()) * len(MEDIUM_CFGS), _medium_chunk, None, chunk=1, describe="0/1 knapsacks and covering problems with 10-24 binaries (data from fixed formulas, capacity a third / half of the total weight); heuristics on/off, the objective negated with the sense flipped (negative incumbents under maximise), LNS passes; optimum by plain integer DP"))
     js.append(Job("int2_box3_warm_starts", 6**4 * 4 * 9, _box3_warm_chunk, None, describe="2 integer variables in 0..3, two general rows over {-4,-2,-1,1,2,4} with right-hand sides {-2,2}, costs over {-2,1,4}, minimise; no warm start and every integer point of the box as warm start"))
     js.append(Job("int2_lower_bound_rows", 4 * 9 * 7 * 2 * 16 * 2, _lbrow_chunk, None, describe="2 variables, each with a single-variable row x_j <= 1 or -x_j <= -1 plus x_j <= 3, one general row a.x <= b0 or a.x >= b0 with a over {1,2,3}, b0 in 0..6, costs over {1..4}; every integer subset, min/max, heuristics on/off"))
     js.append(Job("binary3_one_row", 64 * 4 * 64 * 2, _binary_chunk, None, describe="3 variables with explicit x_j<=1 rows + one general row; all-integer and mixed; rounding heuristic, LNS seeds, limits, warm starts"))
@@ -691,7 +699,7 @@ def replay(v):
     w = v["witness"]
     if w.get("medium"):
         names = [c[0] for c in medium_knapsacks()]
-        i = names.index(w["medium"]) * 2 + (0 if not w.get("config") else 1)
+        i = names.index(w["medium"]) * len(MEDIUM_CFGS) + MEDIUM_CFGS.index(w.get("config") or {})
         r = _medium_chunk(None, i, i + 1)
         return r["violations"][0] if r["violations"] else None
     geo = Geometry(w["A"], w["b"], len(w["c"]))
